@@ -142,13 +142,13 @@ theorem chords_discrete (s : NoteSeq) (tm : Int → Rat) (ev : List String) (S s
       obtain ⟨x, _, rfl⟩ := List.mem_map.mp ha
       simp [qChord, rChord]
     rw [hf, hs]
-    unfold sortByInt
     apply List.mergeSort_of_pairwise
     rw [List.pairwise_map]
     apply List.Pairwise.imp _ hsorted
     intro a b hab
-    simp only [decide_eq_true_eq]
-    show S + a.1 ≤ S + b.1
+    rw [chordLe_iff]
+    left
+    show S + a.1 < S + b.1
     omega
   have : E = ev := by
     apply List.ext_getElem?
